@@ -51,6 +51,24 @@ theorem layout_agrees (h : HostLayouts) (hh : h.WF) (t : BTy) (ht : t.WF) :
 example : rotoLayout .x64 (.result (.option (.prim (.Int .Unsigned .I16))) (.prim .String)) = some ⟨24, 8⟩ := by
   decide
 
+/-- **`payload_in_bounds`** (∀ variant lists, ∀ well-formed layouts): in a `#[repr(u8)]` enum the
+    payload of a single-field variant starts behind the tag byte and ends inside the enum — so the
+    tag and the payload never overlap and, by `layout_agrees`, the stack slot Roto reserves for a
+    boundary value (`layout_of`) holds everything Rust writes through an out-pointer
+    (`size_of::<T::Transformed>()` bytes). -/
+theorem payload_in_bounds (vs : List (List Layout)) (l : Layout) (hmem : [l] ∈ vs)
+    (hwf : ∀ fs ∈ vs, ∀ x ∈ fs, x.WF) :
+    1 ≤ payloadOffset l ∧ payloadOffset l + l.size ≤ (reprU8 vs).size :=
+  payload_in_bounds' vs l hmem hwf
+
+/-- … and the slot Roto reserves is exactly as large and as aligned as the Rust value. -/
+theorem out_slot_fits (h : HostLayouts) (hh : h.WF) (t : BTy) (ht : t.WF) :
+    ∃ l, rotoLayout h t = some l ∧ (rustLayout h t).size ≤ l.size ∧ (rustLayout h t).align ∣ l.align :=
+  ⟨_, layout_agrees' h hh t ht, Nat.le_refl _, Nat.dvd_refl _⟩
+
+example : payloadOffset ⟨17, 1⟩ + 17 ≤ (reprU8 [[⟨17, 1⟩], [⟨4, 4⟩]]).size ∧ (reprU8 [[⟨17, 1⟩], [⟨4, 4⟩]]).size = 20 := by
+  decide
+
 /-! ## T2 — `ffi::list_get` -/
 
 /-- **T2 `list_get_offset`.**  The offset `1usize.next_multiple_of(alignment)` at which
@@ -60,16 +78,17 @@ example : rotoLayout .x64 (.result (.option (.prim (.Int .Unsigned .I16))) (.pri
 theorem list_get_offset (l : Layout) (hl : 0 < l.align) :
     listGetOffset l.align = (LayoutBuilder.add tagBuilder l).2
     ∧ listGetOffset l.align = payloadOffset l := by
-  constructor
-  · simp [listGetOffset, LayoutBuilder.add, tagBuilder_eq]
-  · simp [listGetOffset, payloadOffset, nextMultipleOf_eq_roundUp _ _ hl]
+  -- robust against equivalent spellings of the offset (`1.next_multiple_of(a)`, `a`, `a.max(1)`)
+  have h1 : roundUp 1 l.align = l.align := roundUp_one hl
+  have hg : listGetOffset l.align = l.align := by
+    simp [listGetOffset, nextMultipleOf_eq_roundUp _ _ hl, h1] <;> omega
+  refine ⟨?_, by rw [hg, payloadOffset, h1]⟩
+  rw [hg, tagBuilder_eq, add_snd _ _ hl, h1]
 
 /-- … and on types: the `Some` field of `Option[T]` as `Lowerer::location` addresses it. -/
 theorem list_get_offset_typed (h : HostLayouts) (hh : h.WF) (t : BTy) (ht : t.WF) :
     variantFieldOffset h [toMTy t] 0 = some (listGetOffset (rustLayout h t).align) := by
-  have hl := layout_agrees' h hh t ht
-  simp [variantFieldOffset, addFields, hl, LayoutBuilder.add, listGetOffset, LayoutBuilder.new, locationTagLayout,
-    Layout.new, nextMultipleOf]
+  rw [variantFieldOffset_single h hh t ht, (list_get_offset _ (rustLayout_wf h hh t ht).align_pos).2]
 
 example : listGetOffset 8 = 8 ∧ listGetOffset 1 = 1 ∧ listGetOffset 16 = 16 := by decide
 
